@@ -82,12 +82,29 @@ class Monitor:
                 self.flags['hic'] = True
             if excess:
                 self.flags['residue'] = True
-        if code.name in MACHINE_FAULTS:
+        if code.name in MACHINE_FAULTS and not self._unallocated_dynamic_array(code, kwargs):
             self.problem('C03:machine-fault:' + code.name,
                          {'tick': self.sim.ticks, 'pc': cpu.prev_pc,
                           'line': self.mi.line_of(cpu.prev_pc) if self.mi.has_dbg else None,
                           'kwargs': {k: repr(v) for k, v in kwargs.items()}})
+        mode = ev['mode']
+        target = cpu.trap_target
         r = self._orig_trap(code, **kwargs)
+        if armed and code.name != 'KEYBOARD_INTERRUPT':
+            # C10: while a handler is armed every run-time error goes to it
+            # (ON ERROR GOTO), or the failing statement is skipped (ON ERROR
+            # RESUME NEXT) - the run does not stop with the error
+            ok = True
+            if mode == 'goto':
+                ok = (not cpu.halted) and cpu.error_handler_active and cpu.pc == target
+            elif mode == 'next':
+                ok = (not cpu.halted) or (cpu.last_trap is not None and
+                                          cpu.last_trap.name == 'CANNOT_RESUME')
+            if not ok:
+                self.problem('C10:not-dispatched',
+                             {'tick': self.sim.ticks, 'pc': cpu.prev_pc, 'code': code.name,
+                              'mode': mode, 'halted': cpu.halted,
+                              'line': self.mi.line_of(cpu.prev_pc) if self.mi.has_dbg else None})
         if armed and fd > 1 and cpu.error_handler_active:
             # the handler runs on the module-level frame while the frames of
             # the interrupted call chain (and their stack entries) stay
@@ -97,6 +114,28 @@ class Monitor:
                 self.suspended = (id(cpu.cur_frame),
                                   len(cpu.stack) - (fm[0] + fm[1]))
         return r
+
+    def _unallocated_dynamic_array(self, code, kwargs):
+        """NULL_REFERENCE from reading the reference cell of a dynamic array
+        that was never allocated (its DIM failed or did not execute) is an
+        error of the program, not confusion inside the machine."""
+        if code.name != 'NULL_REFERENCE' or not self.mi.has_dbg:
+            return False
+        try:
+            if self._null_tm is None:
+                from .typemap import TypeMap
+                self._null_tm = self.typemap or TypeMap(self.mi)
+            tm = self._null_tm
+            idx = kwargs.get('idx')
+            if kwargs.get('scope') == 'global':
+                cells = tm.globals
+            else:
+                cells = tm.cells_for_frame(self.cpu.cur_frame)
+            return idx is not None and idx < len(cells) and isinstance(cells[idx], tuple)
+        except Exception:
+            return False
+
+    _null_tm = None
 
     def problem(self, cls, detail):
         if len(self.problems) < self.max_problems:
